@@ -236,9 +236,9 @@ func (s *fhState) apply(op fhOp, check bool, hist []fhOp) {
 func fhExploreMap(c *vCtx, prop string) {
 	type cfg struct{ max, prefill, depth int }
 	var cfgs []cfg
-	dSmall, dBig := 6, 4
+	dSmall, dBig := 7, 5
 	if c.thorough() {
-		dSmall, dBig = 8, 5
+		dSmall, dBig = 9, 6
 	}
 	for _, m := range []int{1, 2, 3, 4} {
 		cfgs = append(cfgs, cfg{m, 0, dSmall})
